@@ -5,6 +5,7 @@ from sa.dataflow import cmp_key, cmp_atoms
 from sa.resolve import walk_function
 from rules.C12 import enclosing_if
 
+TECHNIQUE = "static analysis (ast): guard rules on the CFG (NaN test dominates every use of the price, flat positions read no book), exception discipline (what may be caught around make_trades / transact), build-all-before-execute ordering, sign tables of the book's price selectors by evaluation under sign assumptions"
 EXPLANATION = (
     "Decides the structural clauses of C13: (S1) in Broker.holdings_values a NaN liquidation price of a non-zero position raises and "
     "that test dominates every arithmetic use of the price; the price is the liquidation side (bid for long, ask for short); (S2) under "
